@@ -5,6 +5,53 @@ import sys
 import threading
 
 
+def replay_file(prop, path):
+    """Re-run the concrete scenario recorded in a replay file on the real engine (rebuilt from /repo's current tree) and show what a client observes."""
+    import json
+    from props import replay
+    err = replay.build()
+    if err:
+        print("replay binary does not build:", err[-800:])
+        return 2
+    d = json.load(open(path))
+    print("property=%s role=%s" % (d.get("property"), d.get("role")))
+
+    def find(x):
+        if isinstance(x, dict):
+            if "steps" in x and "models" in x:
+                return x
+            for v in x.values():
+                r = find(v)
+                if r is not None:
+                    return r
+        if isinstance(x, list):
+            for v in x:
+                r = find(v)
+                if r is not None:
+                    return r
+        return None
+
+    for inst in d.get("instances", []):
+        print("recorded:", inst.get("desc"))
+        print("decisions:", json.dumps(inst.get("decisions"), default=str)[:1500])
+        sc = find(inst.get("replay"))
+        if sc is None:
+            print("no concrete engine scenario is attached to this counterexample (decided on the MIR only, or a Kani harness: see `replay.rerun`):", json.dumps(inst.get("replay"), default=str)[:600])
+            continue
+        out = replay.run(sc)
+        if "error" in out:
+            print("replay failed:", out["error"])
+            return 2
+        print("scenario steps:", json.dumps(sc.get("steps"))[:1500])
+        print("results:", json.dumps(out.get("results"))[:1500])
+        for p_ in out.get("procs", []):
+            print("process %s state=%s tasks=%s" % (p_["pid"], p_["state"], [(t["nid"], t["state"]) for t in p_["tasks"]]))
+        print("events:", [(e["kind"], e["pid"], e["state"]) for e in out.get("events", [])])
+        print("messages:", [(m["type"], m["nid"], m["state"]) for m in out.get("messages", [])][:40])
+        return 0
+    return 0
+
+
 def main():
     ap = argparse.ArgumentParser()
     ap.add_argument("prop")
@@ -12,6 +59,8 @@ def main():
     ap.add_argument("--replay", default=None)
     a = ap.parse_args()
     seed = int(os.environ.get("VERIF_SEED", "0") or 0)
+    if a.replay:
+        os._exit(replay_file(a.prop, a.replay))
     mod = importlib.import_module("props." + a.prop)
     rc = mod.main(a.tier, seed)
     sys.stdout.flush()
